@@ -26,7 +26,7 @@ def qs_quantized_bits : QSpec :=
       ("min_po2_exponent", .none),
       ("max_po2_exponent", .none),
       ("post_training_scale", .none)],
-    emits := ["bits", "integer", "symmetric", "alpha", "keep_negative", "use_stochastic_rounding", "qnoise_factor", "post_training_scale"],
+    emits := ["bits", "integer", "symmetric", "alpha", "keep_negative", "use_stochastic_rounding", "scale_axis", "qnoise_factor", "use_ste", "elements_per_scale", "min_po2_exponent", "max_po2_exponent", "post_training_scale"],
     extra := [],
     trainable := 2 }
 
@@ -35,7 +35,7 @@ def qs_bernoulli : QSpec :=
     params := [("alpha", .none),
       ("temperature", (.num (6 : Rat))),
       ("use_real_sigmoid", (.bool true))],
-    emits := ["alpha"],
+    emits := ["alpha", "temperature", "use_real_sigmoid"],
     extra := [],
     trainable := 1 }
 
@@ -78,7 +78,7 @@ def qs_binary : QSpec :=
       ("elements_per_scale", .none),
       ("min_po2_exponent", .none),
       ("max_po2_exponent", .none)],
-    emits := ["use_01", "alpha", "use_stochastic_rounding"],
+    emits := ["use_01", "alpha", "use_stochastic_rounding", "scale_axis", "elements_per_scale", "min_po2_exponent", "max_po2_exponent"],
     extra := [],
     trainable := 1 }
 
@@ -95,7 +95,7 @@ def qs_quantized_relu : QSpec :=
       ("var_name", .none),
       ("use_ste", (.bool true)),
       ("use_variables", (.bool false))],
-    emits := ["bits", "integer", "use_sigmoid", "negative_slope", "use_stochastic_rounding", "relu_upper_bound", "qnoise_factor"],
+    emits := ["bits", "integer", "use_sigmoid", "negative_slope", "use_stochastic_rounding", "relu_upper_bound", "is_quantized_clip", "qnoise_factor", "use_ste"],
     extra := [],
     trainable := 0 }
 
@@ -140,7 +140,7 @@ def qs_quantized_po2 : QSpec :=
       ("var_name", .none),
       ("use_ste", (.bool true)),
       ("use_variables", (.bool false))],
-    emits := ["bits", "max_value", "use_stochastic_rounding", "quadratic_approximation", "qnoise_factor", "log2_rounding"],
+    emits := ["bits", "max_value", "use_stochastic_rounding", "quadratic_approximation", "qnoise_factor", "log2_rounding", "use_ste"],
     extra := [],
     trainable := 0 }
 
@@ -156,7 +156,7 @@ def qs_quantized_relu_po2 : QSpec :=
       ("var_name", .none),
       ("use_ste", (.bool true)),
       ("use_variables", (.bool false))],
-    emits := ["bits", "max_value", "negative_slope", "use_stochastic_rounding", "quadratic_approximation", "qnoise_factor", "log2_rounding"],
+    emits := ["bits", "max_value", "negative_slope", "use_stochastic_rounding", "quadratic_approximation", "qnoise_factor", "log2_rounding", "use_ste"],
     extra := [],
     trainable := 0 }
 
@@ -172,7 +172,7 @@ def qs_quantized_linear : QSpec :=
       ("qnoise_factor", (.num (1 : Rat))),
       ("var_name", .none),
       ("use_variables", (.bool false))],
-    emits := ["bits", "integer", "symmetric", "alpha", "keep_negative", "use_stochastic_rounding", "qnoise_factor"],
+    emits := ["bits", "integer", "symmetric", "alpha", "keep_negative", "use_stochastic_rounding", "scale_axis", "qnoise_factor"],
     extra := [],
     trainable := 2 }
 
@@ -189,8 +189,8 @@ def qs_quantized_hswish : QSpec :=
       ("use_variables", (.bool false)),
       ("relu_shift", (.num (3 : Rat))),
       ("relu_upper_bound", (.num (6 : Rat)))],
-    emits := ["bits", "integer", "symmetric", "alpha", "keep_negative", "use_stochastic_rounding", "qnoise_factor", "post_training_scale", "relu_shift", "relu_upper_bound"],
-    extra := [("keep_negative", (.bool true)), ("post_training_scale", .none)],
+    emits := ["bits", "integer", "symmetric", "alpha", "use_stochastic_rounding", "scale_axis", "qnoise_factor", "relu_shift", "relu_upper_bound"],
+    extra := [],
     trainable := 2 }
 
 def qSpecs : List QSpec :=
@@ -565,7 +565,7 @@ def ls_QAdaptiveActivation : LSpec :=
       ⟨"per_channel", .lit, (.lit (.bool false)), false, true, true⟩,
       ⟨"po2_rounding", .lit, (.lit (.bool false)), false, true, true⟩,
       ⟨"relu_neg_slope", .lit, (.lit (.num (0 : Rat))), false, true, true⟩,
-      ⟨"relu_upper_bound", .lit, (.lit .none), false, false, true⟩],
+      ⟨"relu_upper_bound", .lit, (.lit .none), false, true, true⟩],
     noneIsLinear := false,
     hook := 0 }
 
@@ -728,7 +728,7 @@ def lSpecs : List LSpec :=
 
 /-- keys of `_add_supported_quantized_objects`, in insertion order -/
 def customObjects : List String :=
-  ["QInitializer", "QDense", "QConv1D", "QConv2D", "QConv2DTranspose", "QSimpleRNNCell", "QSimpleRNN", "QLSTMCell", "QLSTM", "QGRUCell", "QGRU", "QBidirectional", "QDepthwiseConv2D", "QSeparableConv1D", "QSeparableConv2D", "QActivation", "QAdaptiveActivation", "QBatchNormalization", "Clip", "quantized_bits", "bernoulli", "stochastic_ternary", "ternary", "stochastic_binary", "binary", "quantized_relu", "quantized_ulaw", "quantized_tanh", "quantized_sigmoid", "quantized_po2", "quantized_relu_po2", "QConv2DBatchnorm", "QDepthwiseConv2DBatchnorm", "QAveragePooling2D", "QGlobalAveragePooling2D", "QScaleShift"]
+  ["QInitializer", "QDense", "QConv1D", "QConv2D", "QConv2DTranspose", "QSimpleRNNCell", "QSimpleRNN", "QLSTMCell", "QLSTM", "QGRUCell", "QGRU", "QBidirectional", "QDepthwiseConv2D", "QSeparableConv1D", "QSeparableConv2D", "QActivation", "QAdaptiveActivation", "QBatchNormalization", "Clip", "quantized_bits", "bernoulli", "stochastic_ternary", "ternary", "stochastic_binary", "binary", "quantized_relu", "quantized_ulaw", "quantized_tanh", "quantized_sigmoid", "quantized_po2", "quantized_relu_po2", "quantized_linear", "quantized_hswish", "QConv2DBatchnorm", "QDepthwiseConv2DBatchnorm", "QAveragePooling2D", "QGlobalAveragePooling2D", "QScaleShift"]
 
 /-- the environment of the real library; `clipBound` stays a parameter -/
 def env (clipBound : QVal → PyVal) : Env :=
